@@ -585,8 +585,23 @@ func c07ByteMutants(r *Rng, b []byte, others [][]byte, budget int) []c07Mutant {
 		}
 		return c07Mutant{m, "field32"}, true
 	})...)
+	// length octets in the long forms of ASN.1 DER (0x80|k followed by k octets) with k up to and beyond the width of a
+	// machine word, put in place of one octet among the first few: a length accumulated in a signed integer goes
+	// negative at k = 8, one accumulated in 32 bits wraps at k = 4
+	if L >= 2 {
+		longs := [][]byte{{0x84, 0xFF, 0xFF, 0xFF, 0xFF}, {0x84, 0x80, 0, 0, 0}, {0x88, 0xFF, 0xFF, 0xFF, 0xFF, 0xFF, 0xFF, 0xFF, 0xFF}, {0x88, 0x80, 0, 0, 0, 0, 0, 0, 0},
+			{0x88, 0xFF, 0xFF, 0xFF, 0xFF, 0xFF, 0xFF, 0xFF, 0xFE}, {0x89, 1, 0, 0, 0, 0, 0, 0, 0, 0}, {0x8F, 0xFF, 0xFF, 0xFF, 0xFF, 0xFF, 0xFF, 0xFF, 0xFF, 0xFF, 0xFF, 0xFF, 0xFF, 0xFF, 0xFF, 0xFF}, {0x80}, {0xFF}}
+		for pos := 1; pos < L && pos <= 6; pos++ {
+			for _, lf := range longs {
+				if r.Intn(3) == 0 || pos == 1 {
+					m := append(append(append([]byte{}, b[:pos]...), lf...), b[pos+1:]...)
+					out = append(out, c07Mutant{m, "der-long-length"})
+				}
+			}
+		}
+	}
 	// random part: splices, chunk deletion / duplication / insertion, multi-byte corruption
-	for len(out) < budget {
+	for len(out) < budget+9 {
 		m := cp()
 		tag := "splice"
 		switch r.Intn(7) {
